@@ -27,6 +27,8 @@ def cells(tier):
                 "ecb-araise": dict(ecb="araise", ccb="plain", slow_ids=[1]),
                 "ccb-raise": dict(ecb="plain", ccb="raise", slow_ids=[0]),
                 "ccb-araise": dict(ecb="coro", ccb="araise", slow_ids=[0, 1]),
+                "ecb-praise": dict(ecb="praise", ccb="plain", slow_ids=[0]),
+                "ccb-apraise": dict(ecb="coro", ccb="apraise", slow_ids=[0]),
             }.items():
                 if q and fin in ("flushRE",) and cbn.startswith("ecb-a"):
                     continue
